@@ -120,7 +120,9 @@ def device(c):
     ts = c.unit(d, ports)
     I, O = ts.inputs, ts.outputs
     n = c.nx
-    address, configuration = ts.sig("address"), ts.sig("configuration")
+    regs = {str(v): v for v in ts.state.values()}
+    address = regs["address"] if "address" in regs and regs["address"].size() == 7 else ts.sig("address")   # the 7-bit register
+    configuration = ts.sig("configuration")
     bus_reset = O["reset_detected"] == 1                       # = reset_sequencer.bus_reset (device output)
     ci = ce.interface
     addr_strobe, new_addr = ts.of(ci.address_changed) == 1, ts.of(ci.new_address)
